@@ -102,7 +102,8 @@ def splitSemi : List String → List String → List (List String)
 
 def burstEv (ws : List String) : Bool :=
   match ws with
-  | op :: _ => op == "add" || op == "prior" || op == "addc" || op == "priorc" || op == "close" || op == "tryclose"
+  | op :: _ => op == "add" || op == "prior" || op == "addc" || op == "priorc" || op == "close" || op == "tryclose" ||
+      op == "trypop"      -- SyncQueue: a barging TryPop between a push and the resume of the consumer it signalled
   | [] => false
 
 /-- `addn n x0` = the adds `x0, x0+1, …, x0+n-1` one after the other; `drain` (SyncQueue) = TryPop until nothing is left -/
